@@ -51,7 +51,7 @@ PROPS = {
         assumptions=["API calls are issued one after another (the publisher's own goroutine is the only concurrency)"],
     ),
     'C08': dict(
-        driver='selval', monitors=['MON08'], proof_files=['SelWalkProofs.v'], gens=['gsgen'], coq_targets=['theories/SelWalkCases.vo'],
+        drivers=[dict(driver='selval', monitors=['MON08']), dict(driver='e2eval', monitors=['MON08E'])], proof_files=['SelWalkProofs.v'], gens=['gsgen'], coq_targets=['theories/SelWalkCases.vo'],
         level_text="Theorem C08_holds: for every selector spec AST (all clause kinds incl. interpret-as, any nesting, any limits) and every accepted depth, the validator accepts iff every recursion limit anywhere in the spec is a depth <= the accepted depth. The walking selector and the default depth in the theorem are regenerated from selectorvalidator.go / impl/graphsync.go by a translator on every run, so removing or altering a clause breaks the proof; the modelled WalkMatching fragment and the visitor are tied to go-ipld-prime and to ValidateMaxRecursionDepth differentially (well-formed and mutated nodes).",
         level_note="Kernel-checked; trusted: translator gsgen (Go AST of the builder expression -> Coq term), hand model of the go-ipld-prime selector fragment (ExploreRecursive/Fields/All/Edge/Matcher under WalkMatching) and of the visitor, both compared with the real code on every run. Nodes with links in explored positions are not well-formed selectors and are not modelled.",
         trusted=["translator gsgen for GenMaxDepthSel.v", "hand model of the go-ipld-prime selector fragment used by the validator (compared differentially on well-formed and mutated nodes)"],
